@@ -627,6 +627,7 @@ func (e *Exec) scanCallWrites(st *State, call *ast.CallExpr, fp *footprint, info
 			rv = dummy(r.Type(), n)
 		}
 		env.vars[n] = rv
+		env.vars["recv"] = rv
 	}
 	for i := 0; i < sig.Params().Len(); i++ {
 		n := sig.Params().At(i).Name()
